@@ -59,7 +59,7 @@ type Config struct {
 	NameChange      bool   `json:"name_change"`
 	FIFO            bool   `json:"fifo"`
 	SchedSeed       int64  `json:"sched_seed"`
-	// NumDNS: number of configured DNS addresses; -1 = none (an empty, non-nil map), 0 = legacy (one or two, drawn from CfgSeed)
+	// NumDNS: number of configured DNS addresses; -1 = none (an empty, non-nil map), 0 = legacy (one or two, drawn from CfgSeed); more than two: that many
 	NumDNS int `json:"num_dns,omitempty"`
 	// PreHistory: some creators start with a long past (counter near a byte boundary, an old NFT
 	// still held): states that are reachable through built-in calls but too far away to walk to
@@ -80,6 +80,10 @@ type Config struct {
 	ScratchReads bool `json:"scratch_reads,omitempty"`
 	// NilTrie: reading from an account that has never stored anything is an error (no data trie)
 	NilTrie bool `json:"nil_trie,omitempty"`
+	// TypedNilAccounts: the node hands the functions "no account here" as an account handle whose
+	// pointer is nil (a nil *Handle inside the interface) instead of a nil interface; the library's
+	// own idiom for both is check.IfNil
+	TypedNilAccounts bool `json:"typed_nil_accounts,omitempty"`
 }
 
 // Event is one step of a run; a replay file is a Config plus a list of Events.
